@@ -34,5 +34,7 @@ func vNoBlock(on bool)
 func vFmtInt(k int, s string) uint64
 func vTokOperand(k int) uint64
 func vTokMark() int
+func vSettle()
+func vParkedCount() int
 func vStrTokCount(s string, mark int) int
 func vStrTokIs(s string, mark, i, kind int, val uint64) bool
